@@ -478,7 +478,20 @@ def _run_pair(case, out):
         # 4. + - ordering ==
         if A is B:
             _check_same_type(out, qa, qb, sa, sb, unit_a, det)
-        else:
+        if not out.disc and math.isfinite(sa):
+            # same type, SI values that differ by one ulp / by a few parts in 10**13: still 'acts on the SI values'
+            for sn in (math.nextafter(sa, math.inf), sa * (1.0 + 2e-13), sa * (1.0 - 3e-15)):
+                try:
+                    qn = A(sn)
+                except Exception:
+                    continue
+                if float(qn) != sn or not math.isfinite(sn):
+                    continue
+                out.label("near-equal-operands")
+                _check_same_type(out, qa, qn, sa, sn, unit_a, dict(det, near=sn.hex()))
+                if out.disc:
+                    return
+        if A is not B:
             _check_refusals(out, qa, qb, det)
         if out.disc:
             return
